@@ -607,8 +607,15 @@ func (c *Ctx) ruleSettingsGuards() {
 				}
 				construct := ord.next("append nodeConfig.enc")
 				pos := c.p.instrPos(in)
+				encIdx := c.fieldIndex("nodeConfig", "enc")
 				good := fa.reachable(in) && fa.allHold(in, func(s *State) bool {
 					for _, fct := range s.factList() {
+						// no existing pair at all: the scan loop was not entered (0 < len(r.enc) is false)
+						if fct.Kind == aTR && !fct.Val && fct.T.K == "B" && fct.T.S == "<" && fct.T.A.K == "C" && fct.T.A.S == "0" && fct.T.B.K == "LEN" {
+							if l := fct.T.B.A; l.K == "L" && l.A.K == "FA" && l.A.N == encIdx {
+								return true
+							}
+						}
 						if fct.Kind == aTR && !fct.Val {
 							for _, mv := range fct.T.vals {
 								// the tested value is the result of strInSlice applied to the existing pairs
